@@ -393,19 +393,32 @@ class Verifier:
 
     def write_is_identity(self, ctx, loc):
         """a recorded write that left the location with its entry value is not a modification"""
+        from .interp import _NOFIELD
         i, field = loc
-        base = self.world.base_heap.get(i)
-        cur = ctx.local.get(i)
-        if base is None or cur is None or field in ("[]", "{}", None):
-            return False
-        if isinstance(cur, HObj) and isinstance(base, HObj):
-            a, b = cur.fields.get(field, _MISSING), base.fields.get(field, _MISSING)
+        old = ctx.writes.get(loc)
+        cur = ctx.cell(Ref(i))
+
+        def same(a, b):
             if a is b:
                 return True
+            if isinstance(a, Ref) and isinstance(b, Ref):
+                return a.id == b.id
+            if isinstance(a, (Sym, Ref)) or isinstance(b, (Sym, Ref)):
+                return False
             try:
-                return (not isinstance(a, (Sym, Ref))) and (not isinstance(b, (Sym, Ref))) and type(a) is type(b) and a == b
+                return type(a) is type(b) and bool(a == b)
             except Exception:
                 return False
+        if isinstance(cur, HObj):
+            return same(cur.fields.get(field, _NOFIELD), old)
+        if isinstance(cur, HList) and isinstance(old, tuple):
+            if cur.items is None or old[0] is None:
+                return cur.items is None and old[0] is None and cur.seq is old[1]
+            return len(cur.items) == len(old[0]) and all(same(x, y) for x, y in zip(cur.items, old[0]))
+        if isinstance(cur, HDict) and isinstance(old, dict):
+            return list(cur.d.keys()) == list(old.keys()) and all(same(cur.d[k], old[k]) for k in old)
+        if isinstance(cur, HSet) and isinstance(old, set):
+            return cur.s == old
         return False
 
     def describe_loc(self, ctx, sfr, loc):
